@@ -47,12 +47,14 @@ struct Chain {
     steps: Vec<Value>,
     handles: Vec<Option<Handle>>,
     readers: Vec<Option<(Box<dyn ReadSeek>, String)>>,
+    /// how the next h_open spells its path (the later records of the handle name the canonical path)
+    open_as: Option<String>,
 }
 impl Chain {
     fn new(route_enum: bool) -> Chain {
         let fs = Fs::new(route_enum);
         let cur = fs.project();
-        Chain { curkey: to_ascii_json(&cur), init: cur.clone(), cur, fs, steps: vec![], handles: vec![None, None], readers: vec![None, None] }
+        Chain { curkey: to_ascii_json(&cur), init: cur.clone(), cur, fs, steps: vec![], handles: vec![None, None], readers: vec![None, None], open_as: None }
     }
     fn log(&mut self, c: Value, r: Value) {
         let post = self.fs.project();
@@ -78,10 +80,12 @@ impl Chain {
                     Some(a) => a.iter().map(|x| x.as_u64().unwrap_or(0) as u8).collect(),
                     None => vec![],
                 };
+                let spelled = self.open_as.take().unwrap_or_else(|| path.to_string());
+                let spelled2 = spelled.clone();
                 let r = gres(|| {
                     let h = match &self.fs {
-                        Fs::Direct(m) => if append { m.append(path) } else { m.write(path) },
-                        Fs::Enum(v) => if append { v.append(path) } else { v.write(path) },
+                        Fs::Direct(m) => if append { m.append(&spelled2) } else { m.write(&spelled2) },
+                        Fs::Enum(v) => if append { v.append(&spelled2) } else { v.write(&spelled2) },
                     };
                     match h {
                         Ok(w) => {
@@ -99,7 +103,7 @@ impl Chain {
                         }
                     }
                 }
-                self.log(call_b("h_open", path, "", slot as u32, 0, "", if append { "a" } else { "w" }), r);
+                self.log(call_b("h_open", &spelled, "", slot as u32, 0, "", if append { "a" } else { "w" }), r);
             },
             // read handles: opening, reading and dropping one never changes anything, whatever happened to the file meanwhile
             "hr_open" => {
@@ -449,6 +453,11 @@ fn main() {
                             let what = ["h_open", "h_write", "h_write", "h_flush", "h_drop", "hr_open", "hr_read", "hr_drop"][rng.gen_range(0..8)];
                             let data = rand_data(&mut rng);
                             let append = rng.gen_bool(0.4);
+                            // opened under the respelled argument (relative to the cwd, unclean, ...): the handle is bound to what
+                            // that resolves to NOW, whatever the cwd is when it is flushed or dropped
+                            if what == "h_open" && !chaos {
+                                ch.open_as = Some(respell(&mut rng, &a0, &cwd, &home));
+                            }
                             ch.handle_op(&prog, id, what, slot, &a0, &data, append);
                             continue;
                         },
